@@ -15,7 +15,7 @@ from symtorch import TraceError
 
 METHODS = {
     "deepali/spatial/base.py": {
-        "SpatialTransform": ["__init__", "__copy__", "condition", "condition_", "grid", "grid_", "update", "_update_hook",
+        "SpatialTransform": ["__init__", "__copy__", "__deepcopy__", "condition", "condition_", "grid", "grid_", "update", "_update_hook",
                              "register_update_hook", "clear_buffers", "inv", "inverse"],
         "NonRigidTransform": ["tensor", "update", "clear_buffers"],
     },
@@ -51,7 +51,7 @@ CALLS = {
     "register_forward_pre_hook", "register_update_hook", "evaluate", "evaluate_spline", "exp", "Parameter", "__new__",
     "tensor", "forward", "disp", "view", "grid_reshape", "evaluate_cubic_bspline", "expv", "subdivide_cubic_bspline",
     "sample", "axes", "__init__", "callable", "isinstance", "params", "transforms", "named_transforms", "reversed",
-    "homogeneous_matmul", "ModuleDict", "remove",
+    "homogeneous_matmul", "ModuleDict", "remove", "reshape", "detach", "clone", "deepcopy", "data_grid", "FlowFields",
 }
 MAXLEN = 90
 
